@@ -28,4 +28,4 @@ done
 rm -f /tmp/seed_demo0_$$.log /tmp/seed_demo1_$$.log
 echo "== summary: demo unchanged=$d0 changed=$d1"
 # restore regenerated Lean files to what /repo says
-for c in "$@"; do tools/vcheck "$c" quick >/dev/null 2>&1; done
+[ "${SEED_NO_RESTORE:-0}" = 1 ] || for c in "$@"; do tools/vcheck "$c" quick >/dev/null 2>&1; done
